@@ -200,7 +200,11 @@ def list_subqueries(segment: BaseSegment) -> list[SubQueryTuple]:
                     if is_subquery(bracketed):
                         subquery.append(SubQueryTuple(bracketed, None))
             # a subquery anywhere else in the element: ELSE branch, function argument or operand inside an expression
-            found = {id(extract_innermost_bracketed(sq.parenthesis)) for sq in subquery}
+            found = {
+                id(extract_innermost_bracketed(sq.parenthesis))
+                for sq in subquery
+                if is_bracketed_subquery(sq.parenthesis)
+            }
             for bracketed in select_clause_element.recursive_crawl(
                 "bracketed", no_recursive_seg_type="select_statement"
             ):
@@ -209,7 +213,18 @@ def list_subqueries(segment: BaseSegment) -> list[SubQueryTuple]:
                     and id(extract_innermost_bracketed(bracketed)) not in found
                 ):
                     found.add(id(extract_innermost_bracketed(bracketed)))
-                    subquery.append(SubQueryTuple(bracketed, None))
+                    subquery.append(
+                        SubQueryTuple(extract_innermost_bracketed(bracketed), None)
+                    )
+        # ((SELECT ...)): the query is in the innermost bracket
+        subquery = [
+            (
+                SubQueryTuple(extract_innermost_bracketed(sq.parenthesis), sq.alias)
+                if is_bracketed_subquery(sq.parenthesis)
+                else sq
+            )
+            for sq in subquery
+        ]
     elif segment.type == "from_expression_element":
         as_segment, target = extract_as_and_target_segment(segment)
         if is_subquery(target):
